@@ -243,7 +243,7 @@ func c14SessRecord(id string, r c14SessRes) c14TR {
 		ns = append(ns, k)
 	}
 	sort.Strings(ns)
-	t := c14TR{K: "sess", ID: id, Lines: []string{}, LinesU: []string{}, Names: []string{}, B: [][]any{},
+	t := c14TR{K: "sess", ID: id, Lines: []string{}, LinesU: []string{}, Names: []string{}, B: [][]any{}, HS: [][]any{}, HSErr: []string{},
 		A: c14TRPath{Vals: [][]any{}, Idem: true, Calls: [][]any{}}, W: c14TRPath{Vals: [][]any{}, Idem: true, Calls: [][]any{}}}
 	for _, k := range ns {
 		m, inM := r.Memory[k]
